@@ -362,7 +362,7 @@ func c03(c *Ctx) {
 			good := false
 			for _, b := range as.Blocks {
 				for _, in := range b.Instrs {
-					if mu, ok := in.(*ssa.MapUpdate); ok && mu.Map == tmpl {
+					if mu, ok := in.(*ssa.MapUpdate); ok && sole(mu.Map) == sole(tmpl) {
 						if flow.Default.Any(mu.Key, func(v ssa.Value) bool { return isFieldSel(v, "v1.ComposedTemplate", "Name") }) {
 							l := cfgx.LoopOf(mu.Block())
 							if l != nil {
